@@ -416,6 +416,23 @@ func TestC19(t *testing.T) {
 							hh := req.Hash()
 							reqHash = &hh
 						}
+						if mask&1 != 0 {
+							// the rebuilt proposal's hash is a function of its content: rebuilt for another primary index it
+							// equals the hash of the original payload re-labelled with that index
+							other := prim + 1
+							pool[0].SetValidatorIndex(other)
+							wantOther := pool[0].Hash()
+							pool[0].SetValidatorIndex(orig)
+							r.evals++
+							if ro := m.GetPrepareRequest(cp, nil, other); ro == nil || ro.Hash() != wantOther {
+								r.fail("C19/recovery/rebuilt-proposal-hash", fmt.Sprintf("h=%d v=%d subset=%03b wire=%v: proposal rebuilt for primary index %d does not hash like the same content carrying that index", h, v, mask, wire, other))
+							} else {
+								ro.SetValidatorIndex(prim)
+								if ro.Hash() != want {
+									r.fail("C19/hash/stale-after-set-validator-index/rebuilt-PrepareRequest", fmt.Sprintf("h=%d v=%d subset=%03b wire=%v", h, v, mask, wire))
+								}
+							}
+						}
 						if ph := m.PreparationHash(); ph != nil && reqHash != nil && *ph != *reqHash {
 							r.fail("C19/recovery/preparation-hash-is-not-the-proposal-hash", fmt.Sprintf("h=%d v=%d subset=%03b primary=%d wire=%v", h, v, mask, prim, wire))
 						}
@@ -446,10 +463,23 @@ func TestC19(t *testing.T) {
 		go func() {
 			defer wg.Done()
 			for in := range work {
-				if _, _, pan := decodePayload(in.data); pan != nil {
+				q, derr, pan := decodePayload(in.data)
+				if pan != nil {
 					fmu.Lock()
 					r.fail("C19/decode/panic/payload", fmt.Sprintf("%v || %s of a valid encoding: % x", pan, in.what, in.data))
 					fmu.Unlock()
+				} else if derr == nil && q != nil {
+					// whatever byte string the decoder accepts, the hash of the resulting payload is a function of its
+					// content: it equals the hash of the payload decoded from its own canonical encoding
+					func() {
+						defer func() { _ = recover() }() // re-encoding problems are section 2's business
+						q2, err2, pan2 := decodePayload(q.MarshalUnsigned())
+						if err2 == nil && pan2 == nil && q2 != nil && q2.Hash() != q.Hash() && observable(q2) == observable(q) {
+							fmu.Lock()
+							r.fail("C19/hash/depends-on-wire-bytes", fmt.Sprintf("%s: the payload decoded from % x hashes differently from the same content decoded from its canonical encoding", in.what, in.data))
+							fmu.Unlock()
+						}
+					}()
 				}
 				if pan := decodeBlock(in.data); pan != nil {
 					fmu.Lock()
